@@ -32,6 +32,8 @@ structure Entry where
   sk : Sk
   map : Option Nat      -- handle of the mapping oracle
   poisoned : Bool := false
+  /-- poisoned by a refused decode (state unspecified, not corrupt): `clear` brings it back -/
+  dirty : Bool := false
 deriving Inhabited
 
 structure Tbl where
@@ -270,11 +272,17 @@ def run (t : Tbl) (cmd : String) (args : List String) : Tbl × String :=
     | none => (t, "bad-op")
     | some h2 => withSk t h fun _ e => (putSk t h2 e, "ok")
   | "clear", [h] =>
-    withSk t h fun h e =>
-      let sk := match e.sk with
-        | .plain s => Sk.plain s.clear
-        | .exact x => Sk.exact x.clear
-      (putSk t h { e with sk := sk }, "ok")
+    match parseNat h with
+    | none => (t, "bad-op")
+    | some h =>
+      match get? t.sks h with
+      | none => (t, "bad-handle")
+      | some e =>
+        if e.poisoned && !e.dirty then (t, "poisoned") else
+        let sk := match e.sk with
+          | .plain s => Sk.plain s.clear
+          | .exact x => Sk.exact x.clear
+        (putSk t h { e with sk := sk, poisoned := false, dirty := false }, "ok")
   | "rew", [h, w] =>
     match parseF64 w with
     | some w =>
@@ -409,7 +417,7 @@ def run (t : Tbl) (cmd : String) (args : List String) : Tbl × String :=
           | .exact x => liftX (x.decodeAndMergeWith bs)
         match r with
         | none => poison t h e
-        | some (.error er) => (putSk t h { e with poisoned := true }, "err:" ++ er.name)
+        | some (.error er) => (putSk t h { e with poisoned := true, dirty := true }, "err:" ++ er.name)
         | some (.ok sk) => (putSk t h { e with sk := sk }, "ok")
     | none => (t, "bad-op")
   | "setmap", _ => (t, "bad-op")
